@@ -276,7 +276,8 @@ class TxnArray(Array):
 
     def __getitem__(self, index: Union[int, Expr]) -> TxnaExpr:
         if type(index) is int:
-            if index < 0:
+            # a constant index is emitted as a uint8 immediate
+            if index < 0 or index > 255:
                 raise TealInputError("Invalid array index: {}".format(index))
         else:
             require_type(cast(Expr, index), TealType.uint64)
